@@ -28,6 +28,42 @@ async def main():
             joins = [m.room for m in sent if isinstance(m, M.JoinRoom.Request)]
             if joins != (['jazz'] if auto else []):
                 return True, f'auto_join={auto}: JoinRoom sent for {joins} (favourites jazz): favourite rooms must be rejoined iff automatic rejoin is enabled', {'auto_join': auto}
+        # every login tells the server the same things: first session, loss, second session on the SAME client object
+        from aioslsk.events import SessionDestroyedEvent
+        client = make_client(tmp)
+        client.settings.rooms.favorites = {'jazz'}
+        client.settings.users.friends = {'bob'}
+        os.makedirs(os.path.join(tmp, 'sh'), exist_ok=True)
+        open(os.path.join(tmp, 'sh', 'a.mp3'), 'w').close()
+        sd = client.shares.add_shared_directory(os.path.join(tmp, 'sh'))
+        await client.shares.scan_directory_files(sd)
+        told = []
+
+        async def record(*msgs):
+            told.extend(type(m).__qualname__ for m in msgs)
+        client.network.send_server_messages = record
+        client.network.server_connection.send_message = AsyncMock(side_effect=lambda m: told.append(type(m).__qualname__))
+        client.network.server_connection.queue_messages = lambda *msgs: told.extend(type(m).__qualname__ for m in msgs) or []
+        sess = Session(user=client.users.get_user_object('me'), ip_address='1.1.1.1', greeting='', client_version=1, minor_version=1)
+        per_login = []
+        for n in (1, 2):
+            told.clear()
+            client.session = sess
+            await client.events.emit(SessionInitializedEvent(sess, raw_message=None))
+            await asyncio.sleep(0.05)
+            per_login.append(sorted(told))
+            client.session = None
+            await client.events.emit(ConnectionStateChangedEvent(client.network.server_connection, ConnectionState.CLOSED, CloseReason.EOF))
+            await client.events.emit(SessionDestroyedEvent(sess))
+            await asyncio.sleep(0.05)
+        if per_login[0] != per_login[1]:
+            missing = [m for m in per_login[0] if m not in per_login[1]]
+            extra = [m for m in per_login[1] if m not in per_login[0]]
+            return True, f'the second login (after a session loss) does not tell the server what the first one did: missing {missing}, extra {extra}', {'first': per_login[0]}
+        for t in asyncio.all_tasks():
+            if t is not asyncio.current_task():
+                t.cancel()
+        await asyncio.sleep(0)
         # stop() is final: unrequested loss with auto-reconnect, then stop()
         client = make_client(tmp, reconnect=True)
         net = client.network
